@@ -93,6 +93,9 @@ import XotModel.Lemmas.SpanDescWitness
 import XotModel.Lemmas.ColonWitness
 import XotModel.Lemmas.ParseErase
 import XotModel.Lemmas.LexDelimsWitness
+import XotModel.Lemmas.SpanScopeStr
+import XotModel.Lemmas.SpanScopeText
+import XotModel.Props.C03
 
 namespace XotModel.Props
 open XotModel XotModel.Witness
@@ -521,6 +524,186 @@ example : (parseString .document Env.fresh colonAttributeText).err? = some (.unk
     sliceBytes colonAttributeText 3 5 = some [':', 'b'] := by
   refine ⟨?_, by decide⟩
   simp only [parseString, lexMode, lex_colonAttribute]; rfl
+
+/-! ### Scoping at STRING level
+
+`C17_slice_element` / `_attribute` resolve the written prefix by `lookupPrefix` over the prefix / namespace
+IDS on `scopeAt p.tree baseStack q`.  When the parse starts from tables reachable from `Xot::new()`
+(`Interner.Reachable x`: any sequence of `add_name` / `add_namespace` / `add_prefix` / earlier parses /
+`clone`; no other hypothesis on the tables), the tables it leaves are duplicate-free, keep the empty prefix at
+id 0 and hold every id of the tree (`build_parsedTables`: `Interner.Inv` is kept by a parse, C08), so the ids
+stand for their strings and the lookup is, on STRINGS, "the nearest enclosing declaration of this prefix wins":
+
+`scopeStrAt p q` = one frame per element on the path to `q` (the node itself included), innermost first,
+holding (prefix, namespace URI) — both strings — of its namespace-node children in document order (what the
+builder makes of the `xmlns:p="…"` / `xmlns="…"` attributes of its start tag: the URI is the DECODED value),
+above `xml ↦ http://www.w3.org/XML/1998/namespace` and `"" ↦ ""`;
+`lookupStr frames pfx` = the LAST declaration of `pfx` in the first frame that declares it. -/
+
+/-- The frames, by recursion on the path: at the root the root's own (none for a document node); at a child
+    `k = ks[i]` of the node at `q`, the declarations of `k` (when an element) on top of those at `q`. -/
+theorem C17_scope_frames (p : Parsed) :
+    (∀ v ks, p.tree = .node v ks → scopeStrAt p [] = strStack p.env (innerStack v ks baseStack)) ∧
+    ∀ (q : Path) (i : Nat) (v : Value) (ks : List Tree) (v' : Value) (ks' : List Tree),
+      p.tree.at? q = some (.node v ks) → ks[i]? = some (.node v' ks') →
+      scopeStrAt p (q ++ [i]) =
+        (match v' with
+         | .element _ => [(sdDeclsOf ks').map fun d => (p.env.prefixStr d.1, p.env.namespaceStr d.2)]
+         | _ => []) ++ scopeStrAt p q := by
+  refine ⟨fun v ks ht => by rw [scopeStrAt, ht]; rfl, fun q i v ks v' ks' hat hk => ?_⟩
+  have := scopeAt_snoc q i p.tree baseStack hat hk
+  rw [scopeStrAt, this, scopeStrAt]
+  cases v' <;> rfl
+
+/-- `xml` and the empty prefix at the bottom of every scope, as strings (tables reachable from `Xot::new()`
+    keep the four built-in entries: `Xot::new()` registers them first, ids persist). -/
+theorem C17_scope_base_strings {x : Interner} (hx : Interner.Reachable x) :
+    strStack x.env baseStack = [[(x.env.prefixStr 0, x.env.namespaceStr 0)], [(x.env.prefixStr 1, x.env.namespaceStr 1)]] ∧
+    x.env.prefixStr 0 = [] := by
+  refine ⟨rfl, ?_⟩
+  have := hx.baseTables.head
+  simp only [Env.prefixStr, List.getD_eq_getElem?_getD, this, Option.getD_some]
+
+/-- C17_scope_strings.  For every text accepted from reachable tables: the element at `q` was made by an
+    `ElementStart` token written `pfx:loc` (resp. `loc`: `pfx` empty) whose recorded span slices the text to
+    exactly that spelling, its name is (`loc`, `ns`), and the namespace URI STRING of `ns` is what the
+    written prefix STRING resolves to over the declared strings in force at `q` — the nearest enclosing
+    declaration, the element's own start tag first.  Every attribute of it likewise; an unprefixed
+    attribute is in no namespace whatever the default namespace is. -/
+theorem C17_scope_strings {x : Interner} (hx : Interner.Reachable x) {m : Mode} {s : Str} {p : Parsed}
+    (h : parseString m x.env s = .ok p)
+    {q : Path} {id : Nat} {ks : List Tree} (hat : p.tree.at? q = some (.node (.element id) ks)) :
+    (∃ pfx loc wsp, Token.elementStart pfx loc wsp ∈ (lexMode m s).1 ∧ WholeName pfx loc ∧
+      (∃ sp, p.spans.get ⟨q, .elementStart⟩ = some sp ∧
+        sliceBytes s sp.start sp.stop = some (tokQName pfx.text loc.text)) ∧
+      ∃ ns, p.env.names[id]? = some (loc.text, ns) ∧
+        lookupStr (scopeStrAt p q) pfx.text = some (p.env.namespaceStr ns)) ∧
+    ∀ k ∈ ks, ∀ n v, k.value = .attribute n v →
+      ∃ pfx loc val wsp, Token.attribute pfx loc val wsp ∈ (lexMode m s).1 ∧ WholeName pfx loc ∧
+        (∃ sp, p.spans.get ⟨q, .attributeName n⟩ = some sp ∧
+          sliceBytes s sp.start sp.stop = some (tokQName pfx.text loc.text)) ∧
+        ∃ ns, p.env.names[n]? = some (loc.text, ns) ∧
+          (pfx.text = [] → ns = Env.noNamespace) ∧
+          (pfx.text ≠ [] → lookupStr (scopeStrAt p q) pfx.text = some (p.env.namespaceStr ns)) := by
+  have ht : ParsedTables p := build_parsedTables hx h
+  refine ⟨?_, fun k hk n v hv => ?_⟩
+  · obtain ⟨⟨pfx, loc, wsp, hmem, hwhole, hsp, _, ns, hn, hl⟩, _⟩ := C17_slice_element h hat
+    exact ⟨pfx, loc, wsp, hmem, hwhole, hsp, ns, hn, lookup_scope_str ht q pfx.text hl⟩
+  · obtain ⟨pfx, loc, val, wsp, hmem, hwhole, hsp, _, _, hpm, ns, hn, hif⟩ := C17_slice_attribute h hat hk hv
+    refine ⟨pfx, loc, val, wsp, hmem, hwhole, hsp, ns, hn, fun he => ?_, fun hne => ?_⟩
+    · rw [if_pos ((idxOf_eq_zero_iff ht.base hpm).2 he)] at hif; exact hif
+    · rw [if_neg (fun hz => hne ((idxOf_eq_zero_iff ht.base hpm).1 hz))] at hif
+      exact lookup_scope_str ht q pfx.text hif
+
+/-- … from `Xot::new()` itself. -/
+theorem C17_scope_strings_fresh {m : Mode} {s : Str} {p : Parsed} (h : parseString m Env.fresh s = .ok p)
+    {q : Path} {id : Nat} {ks : List Tree} (hat : p.tree.at? q = some (.node (.element id) ks)) :
+    ∃ pfx loc wsp, Token.elementStart pfx loc wsp ∈ (lexMode m s).1 ∧ WholeName pfx loc ∧
+      (∃ sp, p.spans.get ⟨q, .elementStart⟩ = some sp ∧
+        sliceBytes s sp.start sp.stop = some (tokQName pfx.text loc.text)) ∧
+      ∃ ns, p.env.names[id]? = some (loc.text, ns) ∧
+        lookupStr (scopeStrAt p q) pfx.text = some (p.env.namespaceStr ns) :=
+  (C17_scope_strings Interner.Reachable.new (x := Interner.new) (by rw [interner_new_env]; exact h) hat).1
+
+/-- C17_scope_frames_text: the frames, read off the TEXT.  The tokens of an accepted text are (up to a
+    version-1.0 XML declaration) the tokens of a well-formed spelling `sns` (`WellNsDoc`; C03_string_accepted_is_denoted),
+    and for every element at `q` there is a chain of spelled elements `e₁ ∋ … ∋ e_k` (`NsPath sns chain`, outermost
+    first: `e₁` a top-level node of `sns`, each next one a child of the one before) such that the frames in force at
+    `q` are, innermost first, what the start tags of `e_k, …, e₁` DECLARE — `declsOf`: for every item `xmlns:p="…"` /
+    `xmlns="…"` of the start tag, in the order written, (`p` resp. the empty prefix, the value decoded as an attribute
+    value) — above `"" ↦ ""` and `xml ↦ http://www.w3.org/XML/1998/namespace`; the innermost element `e_k` of the
+    chain is written with the local name of the node at `q`. -/
+theorem C17_scope_frames_text {x : Interner} (hx : Interner.Reachable x) {m : Mode} {s : Str} {p : Parsed}
+    (h : parseString m x.env s = .ok p)
+    {q : Path} {id : Nat} {ks : List Tree} (hat : p.tree.at? q = some (.node (.element id) ks)) :
+    ∃ sns chain, WellNsDoc sns ∧ NSNode.tokens.tokensList sns = dropDecls (lexMode m s).1 ∧
+      chain ≠ [] ∧ NsPath sns chain ∧
+      scopeStrAt p q = chainFrames chain ++ [[([], [])], [(['x', 'm', 'l'], xmlNsUri)]] ∧
+      ∃ e, chain.getLast? = some e ∧ e.nameLoc = p.env.localName id := by
+  obtain ⟨sns, hw, _, htok, hval, hdec⟩ := C03_string_accepted_is_denoted hx.envBaseNs m s h
+  have hbase := strStack_base (build_envBaseNs hx (show build m (strLen s) x.env (lexMode m s).1 (lexMode m s).2 = .ok p from h))
+  cases ht : p.tree with
+  | node v kids =>
+    rw [ht] at hat hval hdec
+    simp only [Tree.value] at hval
+    subst hval
+    obtain ⟨chain, h1, h2, h3, h4⟩ := scope_frames_document (show decodeNs p.env kids = _ from hdec) hat baseStack
+    refine ⟨sns, chain, hw, htok, h1, h2, ?_, h4⟩
+    rw [scopeStrAt, ht, h3, hbase]
+
+/-- The scoping clause on the text alone: the namespace URI STRING of the element's name is what its prefix AS
+    WRITTEN resolves to over the declarations AS WRITTEN (decoded) of its own and its ancestors' start tags,
+    nearest first. -/
+theorem C17_scope_strings_text {x : Interner} (hx : Interner.Reachable x) {m : Mode} {s : Str} {p : Parsed}
+    (h : parseString m x.env s = .ok p)
+    {q : Path} {id : Nat} {ks : List Tree} (hat : p.tree.at? q = some (.node (.element id) ks)) :
+    ∃ sns chain pfx loc wsp, WellNsDoc sns ∧ NSNode.tokens.tokensList sns = dropDecls (lexMode m s).1 ∧
+      chain ≠ [] ∧ NsPath sns chain ∧ (∃ e, chain.getLast? = some e ∧ e.nameLoc = loc.text) ∧
+      Token.elementStart pfx loc wsp ∈ (lexMode m s).1 ∧
+      (∃ sp, p.spans.get ⟨q, .elementStart⟩ = some sp ∧
+        sliceBytes s sp.start sp.stop = some (tokQName pfx.text loc.text)) ∧
+      ∃ ns, p.env.names[id]? = some (loc.text, ns) ∧
+        lookupStr (chainFrames chain ++ [[([], [])], [(['x', 'm', 'l'], xmlNsUri)]]) pfx.text =
+          some (p.env.namespaceStr ns) := by
+  obtain ⟨sns, chain, hw, htok, h1, h2, h3, e, he, hloc⟩ := C17_scope_frames_text hx h hat
+  obtain ⟨⟨pfx, loc, wsp, hmem, _, hsp, ns, hn, hl⟩, _⟩ := C17_scope_strings hx h hat
+  refine ⟨sns, chain, pfx, loc, wsp, hw, htok, h1, h2, ⟨e, he, ?_⟩, hmem, hsp, ns, hn, by rw [← h3]; exact hl⟩
+  rw [hloc, localName_of_get hn]
+
+/-- … and for the attributes of the element at `q`, over the same frames: an unprefixed attribute is in no
+    namespace; a prefixed one in the namespace its prefix as written resolves to over the declarations as written. -/
+theorem C17_scope_strings_text_attribute {x : Interner} (hx : Interner.Reachable x) {m : Mode} {s : Str} {p : Parsed}
+    (h : parseString m x.env s = .ok p)
+    {q : Path} {id : Nat} {ks : List Tree} (hat : p.tree.at? q = some (.node (.element id) ks)) :
+    ∃ sns chain, WellNsDoc sns ∧ NSNode.tokens.tokensList sns = dropDecls (lexMode m s).1 ∧
+      chain ≠ [] ∧ NsPath sns chain ∧ (∃ e, chain.getLast? = some e ∧ e.nameLoc = p.env.localName id) ∧
+      ∀ k ∈ ks, ∀ n v, k.value = .attribute n v →
+        ∃ pfx loc val wsp, Token.attribute pfx loc val wsp ∈ (lexMode m s).1 ∧
+          (∃ sp, p.spans.get ⟨q, .attributeName n⟩ = some sp ∧
+            sliceBytes s sp.start sp.stop = some (tokQName pfx.text loc.text)) ∧
+          ∃ ns, p.env.names[n]? = some (loc.text, ns) ∧
+            (pfx.text = [] → ns = Env.noNamespace) ∧
+            (pfx.text ≠ [] →
+              lookupStr (chainFrames chain ++ [[([], [])], [(['x', 'm', 'l'], xmlNsUri)]]) pfx.text =
+                some (p.env.namespaceStr ns)) := by
+  obtain ⟨sns, chain, hw, htok, h1, h2, h3, h4⟩ := C17_scope_frames_text hx h hat
+  refine ⟨sns, chain, hw, htok, h1, h2, h4, fun k hk n v hv => ?_⟩
+  obtain ⟨pfx, loc, val, wsp, hmem, _, hsp, ns, hn, he, hne⟩ := (C17_scope_strings hx h hat).2 k hk n v hv
+  exact ⟨pfx, loc, val, wsp, hmem, hsp, ns, hn, he, fun hp => by rw [← h3]; exact hne hp⟩
+
+/-- Non-vacuity, nearest declaration wins: `<p:a xmlns:p='u'><p:b xmlns:p='w'/><p:c/></p:a>` is accepted from
+    `Xot::new()`; the frames at `p:b` are `[p ↦ w]` above `[p ↦ u]` and `p` resolves to `w` there (the name of
+    the node is (`b`, `w`)); at `p:c` they are `[]` above `[p ↦ u]` and `p` resolves to `u` (name (`c`, `u`)). -/
+example : renderTokens scopeWitness =
+    ['<', 'p', ':', 'a', ' ', 'x', 'm', 'l', 'n', 's', ':', 'p', '=', '"', 'u', '"', '>',
+     '<', 'p', ':', 'b', ' ', 'x', 'm', 'l', 'n', 's', ':', 'p', '=', '"', 'w', '"', '/', '>',
+     '<', 'p', ':', 'c', '/', '>', '<', '/', 'p', ':', 'a', '>'] := by decide
+example : scopeWitnessCheck (parseString .document Env.fresh (renderTokens scopeWitness)) = true := by
+  have e : lexMode .document (renderTokens scopeWitness) = (placeTokens 0 scopeWitness, none) :=
+    lexDocument_render scopeWitness (by decide)
+  unfold parseString
+  rw [e, build_eq_buildE]
+  decide +kernel
+
+/-- … and the frames of `p:b` read off the text by `C17_scope_frames_text`: a chain of spelled elements whose
+    start-tag declarations are `[p ↦ w]`, `[p ↦ u]`, the innermost one written with the local name `b`. -/
+example : ∃ p, parseString .document Env.fresh (renderTokens scopeWitness) = .ok p ∧
+    ∃ sns chain, WellNsDoc sns ∧
+      NSNode.tokens.tokensList sns = dropDecls (lexMode .document (renderTokens scopeWitness)).1 ∧
+      NsPath sns chain ∧ (chainFrames chain ++ [[([], [])], [(['x', 'm', 'l'], xmlNsUri)]]).take 2 =
+        [[(['p'], ['w'])], [(['p'], ['u'])]] ∧
+      ∃ e, chain.getLast? = some e ∧ e.nameLoc = ['b'] := by
+  have hc : scopeWitnessCheck (parseString .document Env.fresh (renderTokens scopeWitness)) = true := by
+    have e : lexMode .document (renderTokens scopeWitness) = (placeTokens 0 scopeWitness, none) :=
+      lexDocument_render scopeWitness (by decide)
+    unfold parseString
+    rw [e, build_eq_buildE]
+    decide +kernel
+  obtain ⟨p, hp, ⟨id, ks, hat, hloc⟩, hfr⟩ := scopeWitnessCheck_spec hc
+  have hp' : parseString .document Interner.new.env (renderTokens scopeWitness) = .ok p := by
+    rw [interner_new_env]; exact hp
+  obtain ⟨sns, chain, hw, htok, _, h2, h3, e, he, hl⟩ := C17_scope_frames_text Interner.Reachable.new hp' hat
+  exact ⟨p, hp, sns, chain, hw, htok, h2, by rw [← h3]; exact hfr, e, he, by rw [hl, hloc]⟩
 
 /-- C17_slice_comment: the `Comment` span slices to the comment's body AS WRITTEN (`w`); the node's
     value is its line-end normalisation (`content.replace("\r\n", "\n").replace('\r', "\n")`). -/
